@@ -494,6 +494,7 @@ pub fn drive<C: Check>(check: &C, tier: Tier) -> i32 {
                         slots[tid].0.store(0, Ordering::SeqCst);
                         local.evaluations += 1;
                         local.stats.merge(&out.stats);
+                        local.stats.sim_ms += crate::exec::take_sim_ms();
                         local.trace_xor ^= mix(&[index, out.trace_hash]);
                         if out.nontrivial {
                             local.shapes.insert(out.shape);
